@@ -504,9 +504,10 @@ def _xlsx_drawing_rels(fn):
         if not isinstance(a, ast.Name):
             continue
         b = F.reaching(fn, pm, a.id, call)
-        if b is None or b.kind != "assign" or not (isinstance(b.value, ast.Subscript) and isinstance(b.value.value, ast.Name)):
+        tr = F.table_read(b.value) if b is not None and b.kind == "assign" else None
+        if tr is None:
             continue
-        m = F.resolve_alias(fn, pm, b.value.value.id, b.node)
+        m = F.resolve_alias(fn, pm, tr[0].id, b.node)
         st = F.map_stores(fn, m)
         if len(st) == 1:
             r = F.relationships_read_feeding(fn, pm, st[0])
@@ -796,7 +797,29 @@ def _unfollowed_mutation(ctor, num_kw, ck):
 def _counter_of(ck, ctor, num_kw):
     """The counter by its role: the one name used as `num_kw=` of the image constructor."""
     from contracts import c14_sites as SI
-    names = {SI.kwv(c, num_kw).id for c in SI.ctor_calls(ck.fn, ctor) if isinstance(SI.kwv(c, num_kw), ast.Name)}
+    from contracts.c14_flow import reaching
+    incs = {n.target.id if isinstance(n, ast.AugAssign) else n.targets[0].id for n in ast.walk(ck.fn)
+            if isinstance(n, (ast.AugAssign, ast.Assign)) and any(SI.is_inc(n, x) for x in
+                                                                  ([n.target.id] if isinstance(n, ast.AugAssign) and isinstance(n.target, ast.Name) else
+                                                                   [t.id for t in getattr(n, "targets", []) if isinstance(t, ast.Name)]))}
+    names = set()
+    for c in SI.ctor_calls(ck.fn, ctor):
+        v, at = SI.kwv(c, num_kw), c
+        for _ in range(5):          # the number may travel through plain local names (helper parameters after inlining)
+            if v is None:
+                break
+            hit = [x.id for x in ast.walk(v) if isinstance(x, ast.Name) and x.id in incs]
+            if hit:
+                names.add(hit[0])
+                break
+            if isinstance(v, ast.Name):
+                b = reaching(ck.fn, ck.pm, v.id, at)
+                if b is None or b.kind != "assign":
+                    names.add(v.id)
+                    break
+                v, at = b.value, b.node
+            else:
+                break
     return sorted(names)[0] if len(names) == 1 else None
 
 
